@@ -63,6 +63,10 @@ def min_rank(kind, field, op=None, floor38=False):
             return 3  # disjunction
         if field == "target":
             return 7  # star_targets: never needs parentheses for valid targets
+    if kind == "GeneratorExp" and field == "elt" and floor38:
+        # 3.8: `f(x := v for v in it)` is a syntax error (argument: test [comp_for] | test ':=' test);
+        # the renderer prints a sole-argument generator bare, so its element must not be a bare walrus
+        return 2
     if kind in ("ListComp", "SetComp", "GeneratorExp") and field == "elt":
         return 1  # named_expression
     if kind == "DictComp" and field in ("key", "value"):
@@ -93,3 +97,19 @@ def min_rank(kind, field, op=None, floor38=False):
     if kind == "JoinedStr":
         return 0
     return None
+
+
+# Slots that carry arbitrarily long chains in real programs (elif chains, operator chains,
+# call/attribute chains): if the same-kind child is parenthesised there, a chain of N links becomes
+# N nested parentheses and CPython refuses the text beyond about 200 ("too many nested parentheses").
+def chain_slots():
+    out = [("IfExp", "orelse", None, ["IfExp"])]
+    for op, lvl in BINOP_LEVEL.items():
+        same = [f"BinOp:{o}" for o, l in BINOP_LEVEL.items() if l == lvl]
+        out.append(("BinOp", "left", op, same))
+    out.append(("BinOp", "right", "Pow", ["BinOp:Pow"]))
+    for k, f in (("Attribute", "value"), ("Subscript", "value"), ("Call", "func")):
+        out.append((k, f, None, ["Attribute", "Subscript", "Call"]))
+    for op in ("Not", "USub", "UAdd", "Invert"):
+        out.append(("UnaryOp", "operand", op, [f"UnaryOp:{op}"]))
+    return out
